@@ -367,6 +367,7 @@ type Case struct {
 	Instances int    `json:"instances"`
 	Rounds    int    `json:"rounds"` // bad/good pairs
 	NoKeep    bool   `json:"disable_keep_alives"`
+	Trace     bool   `json:"httptrace_dump_and_trace,omitempty"`
 }
 
 // headerTimeout: the client-side timer is the only wall-clock deadline in a case. It is
@@ -436,6 +437,9 @@ func httpCase(res *vkit.Result, p *peer, c Case) {
 	defer vkit.RemoveMem(path)
 	gun := map[string]any{"type": c.Gun, "target": p.rt.Addr, "response-header-timeout": headerTimeout(c),
 		"dial": map[string]any{"timeout": "10s"}, "disable-keep-alives": c.NoKeep}
+	if c.Trace {
+		gun["httptrace"] = map[string]any{"dump": true, "trace": true}
+	}
 	samples, rr, err := runPool(poolConf(map[string]any{"type": "uri", "file": path, "passes": 1}, gun, c.Instances), 240*time.Second)
 	if err != nil {
 		res.Inconclusive(true, "pool config rejected: %v", err)
@@ -543,6 +547,9 @@ scenarios:
 	_ = vkit.WriteMemAt(sp, []byte(yaml))
 	defer vkit.RemoveMem(sp)
 	gun := map[string]any{"type": c.Gun, "target": p.rt.Addr, "response-header-timeout": headerTimeout(c), "dial": map[string]any{"timeout": "10s"}}
+	if c.Trace {
+		gun["httptrace"] = map[string]any{"dump": true, "trace": true}
+	}
 	samples, rr, err := runPool(poolConf(map[string]any{"type": "http/scenario", "file": sp, "limit": shots}, gun, c.Instances), 240*time.Second)
 	if err != nil {
 		res.Inconclusive(true, "scenario pool rejected: %v", err)
@@ -964,6 +971,9 @@ func closedPortCase(res *vkit.Result, c Case) {
 	path := vkit.WriteMem([]byte("/a bad\n/b bad\n/c bad\n/d bad\n"))
 	defer vkit.RemoveMem(path)
 	gun := map[string]any{"type": c.Gun, "target": vkit.ClosedPort(), "dial": map[string]any{"timeout": "1s"}}
+	if c.Trace {
+		gun["httptrace"] = map[string]any{"dump": true, "trace": true}
+	}
 	samples, rr, err := runPool(poolConf(map[string]any{"type": "uri", "file": path, "passes": 2}, gun, c.Instances), 240*time.Second)
 	if err != nil {
 		res.Inconclusive(true, "pool rejected: %v", err)
@@ -1036,6 +1046,8 @@ func main() {
 	}
 	for _, nm := range names {
 		cases = append(cases, Case{Gun: "http", Behaviour: nm, Instances: 2, Rounds: 3})
+		cases = append(cases, Case{Gun: "http", Behaviour: nm, Instances: 2, Rounds: 2, Trace: true})
+		cases = append(cases, Case{Gun: "http/scenario", Variant: "all", Behaviour: nm, Instances: 2, Rounds: 2, Trace: true})
 		cases = append(cases, Case{Gun: "connect", Behaviour: nm, Instances: 2, Rounds: 2})
 		for _, v := range []string{"header", "jsonpath", "xpath", "assert", "all"} {
 			cases = append(cases, Case{Gun: "http/scenario", Variant: v, Behaviour: nm, Instances: 2, Rounds: 3})
@@ -1051,6 +1063,7 @@ func main() {
 	}
 	for _, g := range []string{"http", "connect"} {
 		cases = append(cases, Case{Gun: g, Behaviour: "closed-port", Instances: 2})
+		cases = append(cases, Case{Gun: g, Behaviour: "closed-port", Instances: 2, Trace: true})
 	}
 	for _, b := range []string{"h2-statuses", "tls12-client-cert-required", "tls13-client-cert-required", "tls-getconfig-fails", "tls-no-h2"} {
 		cases = append(cases, Case{Gun: "http2", Behaviour: b, Instances: 2, Rounds: 4})
